@@ -49,7 +49,11 @@ def judge(job):
 
     model, err, warns = S.compile_simplified(text, options)
     if err is not None:
-        if _free_symbol_error(err):
+        phase = getattr(err, "_vf_phase", "simplify")
+        if phase == "post":
+            # simplify() returned; what it left behind cannot be turned into the residual function
+            viol("dae-residual-unbuildable:" + type(err).__name__, "after simplify() the DAE residual / post checks fail: %s" % str(err)[:300])
+        elif _free_symbol_error(err):
             viol("free-symbol-in-simplify:" + common.exc_sig(err), "simplify() fails on a dangling symbol: %r" % err)
         else:
             res["outcome"] = "exception:" + common.exc_sig(err)
